@@ -6,11 +6,26 @@ open Fabio Fabio.Model.C08
 
 def names (l : List Str) : List String := l.map String.ofList
 
-/-- `addHeaders` reads and writes exactly the header names the model uses. -/
+/-- `addHeaders` (with the unexported helpers it calls inlined: `scheme`, `localPort`, the Connection
+protection, …) reads and writes exactly the header names the model uses. -/
 theorem addHeaders_names_pinned :
     Generated.C08.addHeadersNames =
-      names [forwarded, upgrade, xForwardedFor, xForwardedHost, xForwardedPort, xForwardedPrefix, xForwardedProto, xRealIp] := by
+      names [connection, forwarded, upgrade, xForwardedFor, xForwardedHost, xForwardedPort, xForwardedPrefix,
+             xForwardedProto, xRealIp] := by
   decide
+
+/-- The order in which `addHeaders` mutates the header map (consecutive writes to one name collapsed) is the
+order of the model's steps: `stepClientIP`, `stepRealIp`, `stepWS`, `stepForward` (Proto, Port, Host, Prefix,
+Forwarded), `stepTLS` (set / delete), `stepConnection` (delete / assign) — in particular the Connection
+protection comes after every header it protects has been written (D12d). `scheme` writes nothing and
+`addResponseHeaders` only sets Strict-Transport-Security. -/
+theorem addHeaders_write_order :
+    Generated.C08.addHeadersWrites =
+      ["set:field:ClientIPHeader", "set:X-Real-Ip", "set:X-Forwarded-For", "set:X-Forwarded-Proto",
+       "set:X-Forwarded-Port", "set:X-Forwarded-Host", "set:X-Forwarded-Prefix", "set:Forwarded",
+       "set:field:TLSHeader", "del:field:TLSHeader", "del:Connection", "assign:Connection"] ∧
+    Generated.C08.schemeWrites = [] ∧
+    Generated.C08.responseWrites = ["set:Strict-Transport-Security"] := by decide
 
 theorem scheme_names_pinned : Generated.C08.schemeNames = names [forwarded, upgrade, xForwardedProto] := by decide
 
@@ -21,7 +36,7 @@ theorem response_names_pinned : Generated.C08.responseNames = names [stsName] :=
 on the literal). -/
 theorem header_literals_canonical :
     (Generated.C08.addHeadersNames ++ Generated.C08.schemeNames ++ Generated.C08.responseNames ++
-      Generated.C08.managedHeaders ++ Generated.C08.protectHeaderNames).all
+      Generated.C08.managedHeaders).all
       (fun n => canonicalKey n.toList == n.toList) = true := by decide
 
 /-- The configured client-IP header is exempted exactly for the two names with dedicated rules. -/
@@ -47,22 +62,20 @@ theorem websocket_compare_addHeaders : Generated.C08.wsCompareAddHeaders = ["fol
 theorem websocket_compare_scheme : Generated.C08.wsCompareScheme = ["fold:websocket"] := by decide
 theorem websocket_compare_serveHTTP : Generated.C08.wsCompareServeHTTP = ["fold:websocket"] := by decide
 
-/-- D12d: `protectManagedHeaders` is the last statement of `addHeaders`; it works on the `Connection` header,
-protects the fixed list and the three configured names of `Model.C08.managedKeys`, and reads a token the way
-`httputil.ReverseProxy` does (`tokenKey`). -/
+/-- D12d: the Connection protection covers the fixed list and the three configured names of
+`Model.C08.managedKeys`, and reads a token the way `httputil.ReverseProxy` does (`tokenKey`); that it runs
+last is part of `addHeaders_write_order`. -/
 theorem protect_managed_headers_pinned :
-    Generated.C08.protectIsLastStatement = true ∧
-    Generated.C08.protectHeaderNames = names [connection] ∧
     Generated.C08.managedHeaders = names (managedKeys {}) ∧
-    Generated.C08.protectConfigNames = ["cfg.ClientIPHeader", "cfg.TLSHeader", "cfg.RequestID"] ∧
-    Generated.C08.protectTokenKey = ["http.CanonicalHeaderKey(textproto.TrimString(tok))"] := by decide
+    Generated.C08.protectConfigFields = ["ClientIPHeader", "TLSHeader", "RequestID"] ∧
+    Generated.C08.protectTokenKey = ["http.CanonicalHeaderKey(textproto.TrimString(_))"] := by decide
 
-/-- D12: `ServeHTTP` calls `addHeaders(r, p.Config, t.StripPath)` once, and no assignment to `r.Host` (the
-route's `host=` option) precedes it, so the forwarding headers are derived from the Host the client sent —
+/-- D12: `ServeHTTP` (helpers inlined) calls `addHeaders(<request parameter>, <receiver>.Config,
+<target>.StripPath)` once, and no assignment to the request's `Host` (the route's `host=` option) precedes it, so the forwarding headers are derived from the Host the client sent —
 the order of `Model.C08.serve`. -/
 theorem addHeaders_before_host_override :
     Generated.C08.addHeadersCalls = 1 ∧ Generated.C08.hostAssignmentsBeforeAddHeaders = 0 ∧
-    Generated.C08.addHeadersArgs = ["r", "p.Config", "t.StripPath"] := by decide
+    Generated.C08.addHeadersArgs = ["param1", "recv.Config", "local.StripPath"] := by decide
 
 /-- The request-id header is set before `addHeaders` runs (order of `Model.C08.serve`). -/
 theorem requestid_before_addHeaders :
